@@ -409,7 +409,7 @@ def add_offset(inst, c=2 ** 20):
 
 def add_jitter(inst):
     """Stratum "rounding-level splitting": one partner of a degenerate pair inside a fully diagonalised block
-    is PRESENTED with its level raised by 2^-48 (3.6e-15, the size of rounding after a change of basis; the
+    is PRESENTED with its level raised by 2^-50 (8.9e-16, the size of rounding after a change of basis; the
     library's tolerance for equal levels is 1e-12).  The abstract instance -- and the truth -- keeps the pair
     exactly degenerate; float outputs deviate by rounding-size amounts and are snapped (alpha_snap)."""
     if (inst.get("basis") or inst.get("large_offset") or inst.get("int_dtype") or inst.get("h0_extra")
@@ -553,7 +553,7 @@ def concrete_hamiltonian(inst):
         z = (0,) * k
         h = out[z].toarray() if vt == "sparse" else np.array(out[z])
         h = h.astype(complex if np.iscomplexobj(h) else float)
-        h[jit, jit] += 2.0 ** -48
+        h[jit, jit] += 2.0 ** -50
         out[z] = sparse.csr_array(h) if vt == "sparse" else h
     return out
 
@@ -729,6 +729,7 @@ SNAP_BITS = 40
 # set per instance (make_session / the relation runner): True for the "tiny term" stratum, whose exact outputs are
 # small numerators over 2^60 ...; False otherwise (then a value like 2^-48 is rounding noise and snaps to 0)
 EXACT_TINY = False
+JITTERED = False
 
 
 def red_value(x, p):
@@ -741,7 +742,14 @@ def red_value(x, p):
             if not np.isfinite(v):
                 raise NonFinite(repr(x))
             q = Fraction(v)
-            if q.denominator.bit_length() > SNAP_BITS and not (
+            if JITTERED and q.denominator.bit_length() > 32:
+                # "rounding-level splitting" instances: outputs deviate from the exact ones by the splitting
+                # times an amplification (1e-13 ... 1e-12): coarser grid 2^-32
+                s = Fraction(round(v * 2**32), 2**32)
+                if abs(float(s) - v) > 1e-10 * max(1.0, abs(v)):
+                    raise NotRepresentable(repr(x))
+                q = s
+            elif q.denominator.bit_length() > SNAP_BITS and not (
                     EXACT_TINY and abs(q.numerator).bit_length() <= SNAP_BITS):
                 # (a small numerator over a large power of two is an EXACT tiny dyadic -- the "tiny term"
                 # stratum produces 2^-60 ... -- and is reduced as it stands)
@@ -842,13 +850,14 @@ def make_session(inst, sid, p, outputs=None, spectrum=1):
     """Run the real code on `inst` and build the session record."""
     if outputs is None:
         outputs = run_block_diagonalize(inst)
-    global EXACT_TINY
+    global EXACT_TINY, JITTERED
     Ht, U, Ud = outputs
     sizes = inst["sizes"]
     k, N = inst["k"], inst["N"]
     ords = order_seq(k, N)
     out = []
     EXACT_TINY = inst.get("tiny_parameter") is not None
+    JITTERED = inst.get("jitter") is not None
     for n in ords:
         ln = lib_order(inst, n)
         sb = inst.get("_esubs")
